@@ -10,9 +10,11 @@ class C01(rowgen.RowGenProp):
     theorems = ["Wheatley.C01.permute_complete", "Wheatley.C01.start_row_complete",
                 "Wheatley.C01.gen_rows_complete", "Wheatley.C01.gen_rows_each_bell_once",
                 "Wheatley.C01.opening_extends_start_row", "Wheatley.C01.bot_row_complete",
-                "Wheatley.C01.bot_opening_and_rounds"]
+                "Wheatley.C01.bot_opening_and_rounds",
+                "Wheatley.C01.every_row_is_complete", "Wheatley.C01.every_row_each_bell_once",
+                "Wheatley.C01.opening_row_always_complete", "Wheatley.C01.loaded_complete"]
     level_text = ("theorems: every row produced by permute / any generator / the Bot's padding is a permutation of "
-                  "the start row (unbounded). correspondence: (stage, place set) pairs exhaustively to a stage bound "
+                  "the start row (unbounded); system level: in every state of every run of the timed world on events that leave the tower's size alone, the row being rung is a permutation of the tower's bells (every_row_is_complete, by the generic lifting BotInvariant.run). correspondence: (stage, place set) pairs exhaustively to a stage bound "
                   "and sampled above, random generators with random call/reset histories; non-trivial = at least two "
                   "rows produced without error; distinct by request hash. Bot level: sessions of the real Bot/Tower (stub "
                   "rhythm) with towers larger than the stage, custom start rows shorter / equal / longer than the "
